@@ -34,7 +34,7 @@ class _Timeout(Exception):
     pass
 
 
-def _eager(fn, seconds: int = 40):
+def _eager(fn, seconds: int = 40, disable_jit: bool = True):
     """run fn under jax.disable_jit with a wall-clock cap (the recursive-division maze generator needs minutes in eager mode);
     None = skipped.  The check's own SIGALRM budget is restored afterwards."""
     import signal
@@ -48,6 +48,8 @@ def _eager(fn, seconds: int = 40):
     remaining = signal.alarm(seconds)
     t0 = time.time()
     try:
+        if not disable_jit:
+            return fn()
         with jax.disable_jit():
             return fn()
     except _Timeout:
@@ -139,12 +141,27 @@ def run(ctx: Ctx, extended: bool = False) -> None:
             s_np = jax.tree_util.tree_map(lambda x: np.array(x), s)
             a_np = np.array(a)
             snap_np = snapshot(s_np)
-            eg_np = _eager(lambda: env.step(s_np, a_np))
+            def _try_np():
+                try:
+                    return env.step(s_np, a_np)
+                except _Timeout:
+                    raise
+                except Exception:  # noqa: BLE001
+                    # most environments use `x.at[...]` or rely on JAX's clamped indexing, which host arrays do not offer:
+                    # such states are simply not accepted by the environment (no verdict)
+                    return None
+
+            eg_np = _eager(_try_np)
+            if eg_np is None:
+                # plain op-by-op execution (no jit decorator, control flow still staged by lax) accepts host arrays in more environments
+                eg_np = _eager(_try_np, disable_jit=False)
+            if eg_np is None:
+                ctx.count("numpy_state_not_accepted:" + e.cls)
             if eg_np is not None:
                 record("eager-numpy-state:step", eg_np, ref_step)
                 if snapshot(s_np) != snap_np:
                     ctx.fail(e.cid, "argument_mutated", "env.step wrote into the NumPy arrays of its state argument", {**info, "variant": "eager-numpy-state"}, {"cls": e.cls})
-                eg_np2 = _eager(lambda: env.step(s_np, a_np))
+                eg_np2 = _eager(_try_np, disable_jit=False)
                 if eg_np2 is not None:
                     record("eager-numpy-state:repeat", eg_np2, ref_step)
             # results must not change after the fact: a value returned earlier stays what it was when later calls are made on the same object
